@@ -1007,6 +1007,28 @@ impl<'a> RepositoryUpdate<'a> {
         };
 
         if !deltas.is_empty() {
+            // Deltas are applied in place. Should we get interrupted, the
+            // archive will contain a mixture of old and new objects under
+            // the old state. So, before touching anything, make the state
+            // one that can never be taken for current: drop the HTTP
+            // validators so there won’t be a Not Modified response and use
+            // the nil session ID so the next update has to start over from
+            // a snapshot.
+            {
+                let mut state = state.clone();
+                state.session = uuid::Uuid::nil();
+                state.etag = None;
+                state.last_modified_ts = None;
+                if let Err(err) = archive.update_state(&state) {
+                    if err.should_retry() {
+                        return Ok(Some(SnapshotReason::CorruptArchive))
+                    }
+                    else {
+                        return Err(err)
+                    }
+                }
+            }
+
             let count = deltas.len();
             for (i, info) in deltas.iter().enumerate() {
                 self.log.debug(format_args!(
